@@ -88,6 +88,33 @@ fn c02_scope_installs_and_restores() {
     assert!(inv_holds(&p), "C02.guard_drop.then_get_default_preserves_invariant");
 }
 
+// "restored on panic": unwinding runs the very same `Drop for DefaultGuard`; Kani does not unwind, so the one thing
+// that drop could observe about a panic - `std::thread::panicking()` - is replaced by an unconstrained answer. The
+// scope must be closed and the enclosing default restored whichever it is.
+fn panicking_stub() -> bool { nd() }
+#[kani::proof]
+#[kani::unwind(3)]
+#[kani::stub(core::fmt::Formatter::pad, pad_stub)]
+#[kani::stub(std::thread::panicking, panicking_stub)]
+fn c02_guard_drop_restores_the_enclosing_default_also_while_unwinding() {
+    let p = arbitrary_state();
+    let d2 = mk(2); let d3 = mk(3);
+    let nested: bool = nd();
+    {
+        let _g2 = set_default(&d2);
+        if nested {
+            { let _g3 = set_default(&d3); }
+            let mut ok = false;
+            get_default(|d| { ok = same(d, &d2); });
+            assert!(ok, "C02.guard_drop.while_unwinding.outer_scope_is_current_again");
+        }
+    }
+    assert!(inv_holds(&p), "C02.guard_drop.while_unwinding.restores_invariant_state_and_count");
+    let mut ok = false;
+    get_default(|d| { ok = resolves_to(&p, d); });
+    assert!(ok, "C02.guard_drop.while_unwinding.restores_the_enclosing_default");
+}
+
 #[kani::proof]
 #[kani::unwind(3)]
 #[kani::stub(core::fmt::Formatter::pad, pad_stub)]
